@@ -305,6 +305,11 @@ def equal(t1, t2, N=None, limit=4096, with_unordered=False):
     N = N or Normalizer()
     if t1 == t2:
         return True, None
+    try:
+        if N.key(t1) == N.key(t2):
+            return True, None  # same gamma structure with arithmetically equal leaves: no case split needed
+    except Exception:
+        pass
     atoms = []
     for a in cond_atoms(t1) + cond_atoms(t2):
         if a not in atoms:
